@@ -331,6 +331,8 @@ def run(chk):
     _restore_rule(chk, prog)
     _growtharg_rule(chk, prog)
     _ensuresum_rule(chk, prog)
+    from jv.report import must_fire
+    must_fire(chk, "C04-ENSURESUM", _ensuresum_rule, "c04_ensuresum.c", ["bad_product", "bad_sum"])
 
 
 def _restore_rule(chk, prog):
@@ -433,7 +435,7 @@ def _ensuresum_rule(chk, prog):
                               "`%s` computes the wanted capacity in 32-bit arithmetic with no overflow guard: for a container close to "
                               "2 GB (or, for a product, a few hundred MB) the value is negative, the call does nothing, and the code after "
                               "it runs without the room it asked for" % x.text()[:70])
-    chk.floor(rule, 3, n)
+    chk.floor(rule, 0, n)
 
 
 def _growtharg_rule(chk, prog):
@@ -476,7 +478,7 @@ def _growtharg_rule(chk, prog):
                               "`%s` passes a growth factor `%s` that no dominating test bounds below by 1: with growth <= 0 the new "
                               "capacity capacity * growth is zero or negative and the reallocation aborts the process with 'out of memory'" % (
                                   c.text()[:50], gt))
-    chk.floor(rule, 14)
+    chk.floor(rule, 8)
 
 
 def _setcount_rule(chk, prog):
